@@ -293,6 +293,89 @@ theorem typed_alias_transparent_interp (L : AliasLimits) (t : LNode) (l0 l1 l2 l
     · cases h
       exact hN fuel hf
 
+/-- (T) typed_alias_transparent (specification form, completeness for ALL types — tuples and tuple variants
+included; the `tupleFree` hypothesis of `typed_alias_transparent_complete` is not needed): whenever the
+specification assigns a value to the tree of the expansion, the live run over the document yields exactly that
+value for all large enough fuel. -/
+theorem typed_alias_transparent_complete_all (L : AliasLimits) (t : LNode) (l0 l1 l2 l3 : Loc) (r : Exp) (n : ENode)
+    (hnf : noFoldedIndent t = true) (hexp : expand [] [] t = .ok r)
+    (hL1 : 1 ≤ L.maxReplayStackDepth) (hL2 : r.replayed ≤ L.maxTotalReplayedEvents)
+    (hL3 : ∀ id, aliasCount id t ≤ L.maxAliasExpansionsPerAnchor)
+    (hn : treeOf r.evs = some n) (hk : noKemnKeys n = true)
+    (cfg : Cfg) (ty : Ty) (v : Val) (h : interp cfg ty n = some v) :
+    ∃ N, ∀ fuel, N ≤ fuel → deserTopLive fuel cfg ty (initPump L) (docStream t l0 l1 l2 l3) = some v := by
+  obtain ⟨n', hn', he⟩ := expansion_tree t r hexp
+  rw [hn] at hn'
+  cases hn'
+  obtain ⟨N, hN⟩ := Props.C05.deser_top_complete_all cfg ty n hk v h
+  refine ⟨N, fun fuel hf => ?_⟩
+  rw [typed_alias_transparent_top L t l0 l1 l2 l3 r hnf hexp hL1 hL2 hL3, he]
+  exact hN fuel hf
+
+/-- (T) typed_alias_transparent (headline, specification form, ALL types): `typed_alias_transparent_interp`
+without the `tupleFree` hypothesis. For all large enough fuel, the typed deserializer on the live cursor over the
+document yields `v` iff the replay-cursor deserializer over the expansion yields `v` iff the specification
+`Spec.interp` assigns `v` to the tree of the expansion. -/
+theorem typed_alias_transparent_interp_all (L : AliasLimits) (t : LNode) (l0 l1 l2 l3 : Loc) (r : Exp) (n : ENode)
+    (hnf : noFoldedIndent t = true) (hexp : expand [] [] t = .ok r)
+    (hL1 : 1 ≤ L.maxReplayStackDepth) (hL2 : r.replayed ≤ L.maxTotalReplayedEvents)
+    (hL3 : ∀ id, aliasCount id t ≤ L.maxAliasExpansionsPerAnchor)
+    (hn : treeOf r.evs = some n) (hk : noKemnKeys n = true)
+    (cfg : Cfg) (ty : Ty) :
+    ∃ N, ∀ fuel, N ≤ fuel → ∀ v,
+      (deserTopLive fuel cfg ty (initPump L) (docStream t l0 l1 l2 l3) = some v ↔ deserTop fuel cfg ty r.evs = some v) ∧
+      (deserTopLive fuel cfg ty (initPump L) (docStream t l0 l1 l2 l3) = some v ↔ interp cfg ty n = some v) := by
+  have htop := typed_alias_transparent_top L t l0 l1 l2 l3 r hnf hexp hL1 hL2 hL3 cfg ty
+  have hsound := typed_alias_transparent_sound L t l0 l1 l2 l3 r n hnf hexp hL1 hL2 hL3 hn hk cfg ty
+  cases hi : interp cfg ty n with
+  | none =>
+    refine ⟨0, fun fuel _ v => ⟨by rw [htop], ⟨fun h => ?_, fun h => by cases h⟩⟩⟩
+    have := hsound fuel v h
+    rw [hi] at this
+    cases this
+  | some v0 =>
+    obtain ⟨N, hN⟩ := typed_alias_transparent_complete_all L t l0 l1 l2 l3 r n hnf hexp hL1 hL2 hL3 hn hk cfg ty v0 hi
+    refine ⟨N, fun fuel hf v => ⟨by rw [htop], ⟨fun h => ?_, fun h => ?_⟩⟩⟩
+    · have := hsound fuel v h
+      rw [hi] at this
+      exact this
+    · cases h
+      exact hN fuel hf
+
+/-- (T) the same as one equation: for all large enough fuel the live run over the document IS the specification
+on the tree of the expansion (same value, or both reject) — every type. -/
+theorem typed_alias_transparent_eq_interp (L : AliasLimits) (t : LNode) (l0 l1 l2 l3 : Loc) (r : Exp) (n : ENode)
+    (hnf : noFoldedIndent t = true) (hexp : expand [] [] t = .ok r)
+    (hL1 : 1 ≤ L.maxReplayStackDepth) (hL2 : r.replayed ≤ L.maxTotalReplayedEvents)
+    (hL3 : ∀ id, aliasCount id t ≤ L.maxAliasExpansionsPerAnchor)
+    (hn : treeOf r.evs = some n) (hk : noKemnKeys n = true)
+    (cfg : Cfg) (ty : Ty) :
+    ∃ N, ∀ fuel, N ≤ fuel → deserTopLive fuel cfg ty (initPump L) (docStream t l0 l1 l2 l3) = interp cfg ty n := by
+  obtain ⟨n', hn', he⟩ := expansion_tree t r hexp
+  rw [hn] at hn'
+  cases hn'
+  obtain ⟨N, hN⟩ := Props.C05.deser_top_eq_interp cfg ty n hk
+  refine ⟨N, fun fuel hf => ?_⟩
+  rw [typed_alias_transparent_top L t l0 l1 l2 l3 r hnf hexp hL1 hL2 hL3, he]
+  exact hN fuel hf
+
+/-- (T) the negative clause on the live run: a sequence of the wrong length at a tuple position anywhere in the
+tree of the expansion (`Spec.SubPos`; the sequence may itself come from an alias) makes the live run over the
+document reject, for every fuel. -/
+theorem typed_alias_transparent_arity_mismatch (L : AliasLimits) (t : LNode) (l0 l1 l2 l3 : Loc) (r : Exp) (n : ENode)
+    (hnf : noFoldedIndent t = true) (hexp : expand [] [] t = .ok r)
+    (hL1 : 1 ≤ L.maxReplayStackDepth) (hL2 : r.replayed ≤ L.maxTotalReplayedEvents)
+    (hL3 : ∀ id, aliasCount id t ≤ L.maxAliasExpansionsPerAnchor)
+    (hn : treeOf r.evs = some n) (hk : noKemnKeys n = true)
+    (cfg : Cfg) (ty : Ty) (ts : List Ty) (a tag : Nat) (rt : Option (List Char)) (l el : Loc) (items : List ENode)
+    (hpos : SubPos cfg ty n (.tuple ts) (.seq a tag rt l el items)) (h : items.length ≠ ts.length) (fuel : Nat) :
+    deserTopLive fuel cfg ty (initPump L) (docStream t l0 l1 l2 l3) = none := by
+  obtain ⟨n', hn', he⟩ := expansion_tree t r hexp
+  rw [hn] at hn'
+  cases hn'
+  rw [typed_alias_transparent_top L t l0 l1 l2 l3 r hnf hexp hL1 hL2 hL3, he]
+  exact Props.C05.arity_mismatch_is_error cfg ty n hk ts a tag rt l el items hpos h fuel
+
 /-- (T) the entry-point protocol `from_str` / `from_reader` (`Model/Entry.lean: fromSingle`: value, then
 `peek` must see end of input, then `finish()`), on the live pump over the document, accepts exactly when
 the replay-cursor deserializer over the expansion does, with the same value (fuel = the protocol's own
@@ -417,6 +500,76 @@ def demoSeqFlat : LNode :=
   .seq 0 none 10 19 [.scalar ['x'] .plain 1 none 11, .scalar ['x'] .plain 1 none 11, .scalar ['x'] .plain 1 none 11]
 example : (expand [] [] demoSeq).toOption.map (·.evs) = (expand [] [] demoSeqFlat).toOption.map (·.evs) := by decide
 
+/-! ### (E) non-vacuity of the all-types theorems: an aliased pair read at a tuple position
+
+```yaml
+[&1 [1, 2], *1]          # into Vec<(i32, i32)>  — accepted
+[&1 [1, 2, 3], *1]       # into Vec<(i32, i32)>  — rejected: surplus element, also in the aliased copy
+``` -/
+
+def demoPairs : LNode := .seq 0 none 10 19 [.seq 1 none 11 14 [sc "1" 12, sc "2" 13], .alias 1 15]
+def demoPairsBad : LNode := .seq 0 none 10 19 [.seq 1 none 11 15 [sc "1" 12, sc "2" 13, sc "3" 14], .alias 1 16]
+def demoPairsL : AliasLimits := { maxTotalReplayedEvents := 5, maxReplayStackDepth := 1, maxAliasExpansionsPerAnchor := 1 }
+def demoPairsR : Exp := match expand [] [] demoPairs with
+  | .ok r => r
+  | .error _ => ⟨[], [], 0⟩
+def demoPairsBadR : Exp := match expand [] [] demoPairsBad with
+  | .ok r => r
+  | .error _ => ⟨[], [], 0⟩
+def demoPairsTree : ENode := (treeOf demoPairsR.evs).getD default
+def demoPairsBadTree : ENode := (treeOf demoPairsBadR.evs).getD default
+def demoPairsTy : Ty := .seq (.tuple [.int true 32, .int true 32])
+
+theorem demoPairs_expand : expand [] [] demoPairs = .ok demoPairsR := by
+  have h : (expand [] [] demoPairs).toOption = some demoPairsR := by decide +kernel
+  cases hx : expand [] [] demoPairs with
+  | error e => rw [hx] at h; cases h
+  | ok r =>
+    rw [hx] at h
+    simp only [Except.toOption, Option.some.injEq] at h
+    rw [h]
+theorem demoPairsBad_expand : expand [] [] demoPairsBad = .ok demoPairsBadR := by
+  have h : (expand [] [] demoPairsBad).toOption = some demoPairsBadR := by decide +kernel
+  cases hx : expand [] [] demoPairsBad with
+  | error e => rw [hx] at h; cases h
+  | ok r =>
+    rw [hx] at h
+    simp only [Except.toOption, Option.some.injEq] at h
+    rw [h]
+theorem demoPairs_tree : treeOf demoPairsR.evs = some demoPairsTree := by
+  obtain ⟨n, hn, -⟩ := expansion_tree demoPairs demoPairsR demoPairs_expand
+  simp [demoPairsTree, hn]
+theorem demoPairsBad_tree : treeOf demoPairsBadR.evs = some demoPairsBadTree := by
+  obtain ⟨n, hn, -⟩ := expansion_tree demoPairsBad demoPairsBadR demoPairsBad_expand
+  simp [demoPairsBadTree, hn]
+theorem demoPairs_aliases (t : LNode) (ht : t = demoPairs ∨ t = demoPairsBad) :
+    ∀ id, aliasCount id t ≤ demoPairsL.maxAliasExpansionsPerAnchor := by
+  intro id
+  rcases ht with rfl | rfl <;>
+  · simp only [demoPairs, demoPairsBad, sc, aliasCount, aliasCountL, demoPairsL]
+    split <;> omega
+
+example : tupleFree demoPairsTy = false := by decide +kernel
+/-- the specification accepts the first document, and the all-types completeness theorem transports the value to
+the live run -/
+example : ∃ N, ∀ fuel, N ≤ fuel → deserTopLive fuel {} demoPairsTy (initPump demoPairsL) (docStream demoPairs 1 2 3 4) =
+    some (.seq [.seq [.int 1, .int 2], .seq [.int 1, .int 2]]) :=
+  typed_alias_transparent_complete_all demoPairsL demoPairs 1 2 3 4 demoPairsR demoPairsTree (by decide)
+    demoPairs_expand (by decide) (by decide +kernel) (demoPairs_aliases _ (Or.inl rfl)) demoPairs_tree (by decide +kernel)
+    {} demoPairsTy _ (by decide +kernel)
+/-- the second document is rejected by the live run for every fuel: the sub-position is the ALIASED copy -/
+example (fuel : Nat) : deserTopLive fuel {} demoPairsTy (initPump demoPairsL) (docStream demoPairsBad 1 2 3 4) = none := by
+  have htree : demoPairsBadTree = .seq 0 0 none 10 19
+      [.seq 1 0 none 11 15 [.scalar ['1'] 0 none .plain 0 12, .scalar ['2'] 0 none .plain 0 13, .scalar ['3'] 0 none .plain 0 14],
+       .seq 1 0 none 11 15 [.scalar ['1'] 0 none .plain 0 12, .scalar ['2'] 0 none .plain 0 13, .scalar ['3'] 0 none .plain 0 14]] := by
+    rfl
+  refine typed_alias_transparent_arity_mismatch demoPairsL demoPairsBad 1 2 3 4 demoPairsBadR demoPairsBadTree (by decide)
+    demoPairsBad_expand (by decide) (by decide +kernel) (demoPairs_aliases _ (Or.inr rfl)) demoPairsBad_tree
+    (by decide +kernel) {} demoPairsTy [.int true 32, .int true 32] 1 0 none 11 15
+    [.scalar ['1'] 0 none .plain 0 12, .scalar ['2'] 0 none .plain 0 13, .scalar ['3'] 0 none .plain 0 14] ?_ (by decide) fuel
+  rw [htree]
+  exact .seqItem (List.Mem.tail _ (List.Mem.head _)) (.here _ _)
+
 #print axioms sim_peek
 #print axioms sim_next
 #print axioms sim_replay
@@ -436,6 +589,10 @@ example : (expand [] [] demoSeq).toOption.map (·.evs) = (expand [] [] demoSeqFl
 #print axioms typed_alias_transparent_sound
 #print axioms typed_alias_transparent_complete
 #print axioms typed_alias_transparent_interp
+#print axioms typed_alias_transparent_complete_all
+#print axioms typed_alias_transparent_interp_all
+#print axioms typed_alias_transparent_eq_interp
+#print axioms typed_alias_transparent_arity_mismatch
 #print axioms fromSingle_alias_transparent
 
 end SaphyrVerif.Props.E2E
